@@ -963,6 +963,13 @@ def detection(ctx, rep):
             try:
                 outs = I.run(f, setup(I, st, lang_out=with_lang_out), st)
             except Unmodelled:
+                ob_ = [x for x in I.oob if x[6] and x[3] is not None and x[2].startswith('g:')]
+                if ob_:
+                    # a partition described by exact constraints on the per-language outcomes indexes a table of the library out of bounds: a feasible path
+                    x = ob_[0]
+                    rep.fail('every access to a library table made by the detection loop is in bounds', x[0], 'polyseed_phrase_decode: %s of %d byte(s) at offset %d of %s (%d bytes)' % (x[1], x[4], x[3], x[2][2:], x[5]),
+                             detail={'at': x[0], 'object': x[2][2:], 'offset': x[3], 'size': x[5], 'languages_matching': sorted(ln_ for ln_ in langs if st.cons.reduce(I.V.bit('M[%s]' % ln_)) == 1)[:4]}, key='DETECT|oob')
+                    continue
                 nd_ = [x for x in I.null_derefs if x[3]]
                 if not nd_ or with_lang_out: raise
                 # a partition described by exact (affine) constraints on the per-language outcomes dereferences NULL: a feasible path
